@@ -18,7 +18,23 @@ Requests (after the `C16` token):
 * `fits field new|old <tree>` — `write_field` then `read_field` through the FITS model:
   `ok w=<ok|kind> img=<tree|N> r=<ok|kind|-> out=<tree|->`
 * `fits basis new|old <tree>` — the same for mode bases
-* `ravel [shape] [index]`, `unravel [shape] k`
+* `ravel [shape] [index]`, `unravel [shape] k` — with NumPy's checks: `ok …` or `err value`
+* `dict gridold <tree>` — `Grid.from_dict` with the unrepaired registry (D161)
+* `getstate field c|f <tree>` — `Field.__getstate__()` for a C- or Fortran-ordered data array:
+  `ok shape=[…] dtype=<dt> fortran=<T|F> raw=<arr>` (`raw` = the bytes decoded with the dtype)
+* `todict-st grid|field|basis good|bad <tree>` — `to_dict` and the FITS writer as programs over the
+  object (`toDictM`, `write…M`; `bad` = the variant reading the property `weights`):
+  `ok before=<N|S> after=<N|S> tree=<tree|err> wafter=<N|S> w=<ok|kind>` where `N`/`S` say whether the
+  grid's `_weights` is `None` or set
+* `file grid asdf|fits new|old <tree>`, `file field|basis asdf new <tree>` — the grid-file / ASDF
+  layer with `AsdfLib.observed`: `ok sc=<T|F|-> w=<ok|kind> file=<tree|-> r=<ok|kind|-> out=<tree|->`
+* `guess <name>` — `_guess_file_format`: `ok asdf|fits|pickle|none`; `format <name> <fmt|->` — the format
+  a reader / writer ends up with: `ok <format>` or `err value|notimpl`
+* `filert grid|field|basis <c|f|-> <name> <fmt|-> <tree>` — `write_*(x, name, fmt)` then
+  `read_*(name, fmt)` (`writeGridFile` … `readBasisFile`; layout for the pickle of a field):
+  `ok w=<ok|kind> fam=<asdf|fits|pickle|-> r=<ok|kind|-> out=<tree|->`
+* `chain grid|field|basis <c|f|-> <name:fmt,name:fmt,…> <tree>` — a chain of file round trips (`gridChain`,
+  `fieldChain`, `basisChain`): `ok <tree of the last object read>` or `err <kind>`
 -/
 namespace HcipyVerif.Driver.C16
 open HcipyVerif.Proto HcipyVerif.Serial
@@ -151,7 +167,7 @@ def parseTree? (s : String) : Option Tree :=
   | _ => none
 
 def showErr : Err → String
-  | .key => "key" | .value => "value" | .type => "type" | .attr => "attr"
+  | .key => "key" | .value => "value" | .type => "type" | .attr => "attr" | .notImpl => "notimpl"
 
 def answer : Except Err Tree → String
   | .ok t => "ok " ++ showTree t
@@ -199,7 +215,207 @@ def pickleRT (bad : Bool) (l : Layout) (f : Field) : Field :=
     { fr with values := { fr.values with data := interleave fr.values.data fi.values.data } }
   else go f
 
+/-- `Field.__getstate__()`; complex data as a pair of real arrays of the same layout -/
+def getStateShown (l : Layout) (f : Field) : String :=
+  let raw :=
+    if f.values.dtype.startsWith "c" then
+      let (re, im) := deinterleave f.values.data
+      let sr := Field.getState { f with values := { f.values with data := re } } l
+      let si := Field.getState { f with values := { f.values with data := im } } l
+      interleave sr.raw si.raw
+    else (f.getState l).raw
+  let s := f.getState l
+  let n := if f.values.dtype.startsWith "c" then raw.length / 2 else raw.length
+  "ok shape=" ++ showNatList s.shape ++ " dtype=" ++ s.dtype ++ " fortran=" ++
+    (if s.isFortran then "T" else "F") ++ " raw=" ++ showArr ⟨s.dtype, [n], raw⟩
+
+def parseLayout? (s : String) : Option Layout :=
+  if s == "c" then some .c else if s == "f" then some .f else none
+
+def nullFlag (g : Option Grid) : String :=
+  match g with
+  | some g => if g.weights.isNull then "N" else "S"
+  | none => "-"
+
+/-- the wire decoder of grids: any coordinate-system name (the registry is what is under test) -/
+def decodeGrid (t : Tree) : Except Err Grid := Grid.fromDictWith (fun _ => true) t
+
+def stAnswer {α} (before after wafter : Option Grid) (tree : Except Err Tree)
+    (w : Except Err α) : String :=
+  let tr := match tree with
+    | .ok t => showTree t
+    | .error e => "err:" ++ showErr e
+  s!"ok before={nullFlag before} after={nullFlag after} tree={tr} wafter={nullFlag wafter} w={status w}"
+
+def fileAnswer' {α} (w : Except Err Tree) (rd : Tree → Except Err α) (td : α → Except Err Tree) :
+    String :=
+  match w with
+  | .error e => s!"ok w={showErr e} file=- r=- out=-"
+  | .ok ft =>
+    let r := rd ft
+    let out := match r with
+      | .ok x => match td x with
+        | .ok t => showTree t
+        | .error e => "toDict:" ++ showErr e
+      | .error _ => "-"
+    s!"ok w=ok file={showTree ft} r={status r} out={out}"
+
+def scFlag (g : Option Grid) : String :=
+  match g with
+  | some g => if g.weights.isNpScalar then "T" else "F"
+  | none => "-"
+
+/-- `sc` says whether the weights of the grid written are a NumPy scalar (`Tree.isNpScalar`): the
+only case in which the ASDF layer hands back something else than what was stored -/
+def fileAnswer {α} (g : Option Grid) (w : Except Err Tree) (rd : Tree → Except Err α)
+    (td : α → Except Err Tree) : String :=
+  "ok sc=" ++ scFlag g ++ (fileAnswer' w rd td).drop 2
+
+def fmtShown : Option Fmt → String
+  | some f => f.name
+  | none => "none"
+
+def parseFmtArg (s : String) : Option String := if s == "-" then none else some s
+
+def storedFam {P} : Stored P → String
+  | .asdf _ => "asdf" | .fits _ => "fits" | .pickle _ => "pickle"
+
+/-- answer of `filert`: write status, the format of the file written, read status, object read -/
+def filertAnswer {P α} (w : Except Err (Stored P)) (rd : Stored P → Except Err α)
+    (td : α → Except Err Tree) : String :=
+  match w with
+  | .error e => s!"ok w={showErr e} fam=- r=- out=-"
+  | .ok c =>
+    let r := rd c
+    let out := match r with
+      | .ok x => match td x with
+        | .ok t => showTree t
+        | .error e => "toDict:" ++ showErr e
+      | .error _ => "-"
+    s!"ok w=ok fam={storedFam c} r={status r} out={out}"
+
+/-- `filert` for a field; a complex array (re/im interleaved on the wire) is a pair of real arrays of
+the same shape, dtype tag and layout: both go through the model, the results are interleaved again -/
+def filertField (l : Layout) (nm : List Char) (fm : Option String) (f : Field) : String :=
+  if f.values.dtype.startsWith "c" then
+    let (re, im) := deinterleave f.values.data
+    let fr : Field := { f with values := { f.values with data := re } }
+    let fi : Field := { f with values := { f.values with data := im } }
+    let wi := writeFieldFile AsdfLib.observed l nm fm fi
+    filertAnswer (writeFieldFile AsdfLib.observed l nm fm fr)
+      (fun c => do
+        let xr ← readFieldFile nm fm c
+        let xi ← wi.bind (readFieldFile nm fm)
+        pure ({ xr with values := { xr.values with data := interleave xr.values.data xi.values.data } } : Field))
+      (fun x => .ok x.toDict)
+  else
+    filertAnswer (writeFieldFile AsdfLib.observed l nm fm f) (readFieldFile nm fm) (fun x => .ok x.toDict)
+
+/-- the wire decoder of mode bases: a tree without the key `grid` is a basis without grid (such a basis
+has no dictionary form of its own; the harness sends the `transformation_matrix` / `is_sparse` part) -/
+def decodeBasis (t : Tree) : Except Err ModeBasis :=
+  match t.get .grid with
+  | .ok _ => ModeBasis.fromDict t
+  | .error _ =>
+    let dummy : Grid := ⟨.cartesian, .unstructured [], .null⟩
+    (ModeBasis.fromDict (t.set .grid dummy.toDict)).map fun b => { b with grid := none }
+
+/-- `name:fmt,name:fmt,…` (`fmt` = `-` for None) -/
+def parseHops (s : String) : Option (List Hop) :=
+  (s.splitOn ",").mapM fun tok =>
+    match tok.splitOn ":" with
+    | [n, f] => if n.isEmpty then none else some (n.toList, parseFmtArg f)
+    | _ => none
+
+/-- `chain` for a field; complex data as a pair of real arrays (see `filertField`) -/
+def chainField (l : Layout) (hops : List Hop) (f : Field) : Except Err Field :=
+  -- the layout of the object first written, for every hop (`field_file_chain`: the result does not
+  -- depend on the layouts)
+  let lh := hops.map fun h => (l, h)
+  if f.values.dtype.startsWith "c" then do
+    let (re, im) := deinterleave f.values.data
+    let xr ← fieldChain AsdfLib.observed lh { f with values := { f.values with data := re } }
+    let xi ← fieldChain AsdfLib.observed lh { f with values := { f.values with data := im } }
+    pure { xr with values := { xr.values with data := interleave xr.values.data xi.values.data } }
+  else fieldChain AsdfLib.observed lh f
+
 def step (st : St) : List String → St × String
+  | ["dict", "gridold", t] =>
+    match parseTree? t with
+    | some t => (st, answer ((Grid.fromDictOld t).map Grid.toDict))
+    | none => (st, "bad-op")
+  | ["getstate", "field", lay, t] =>
+    match parseTree? t, parseLayout? lay with
+    | some t, some l =>
+      match Field.fromDict t with
+      | .ok f => (st, getStateShown l f)
+      | .error e => (st, "err " ++ showErr e)
+    | _, _ => (st, "bad-op")
+  | ["todict-st", what, which, t] =>
+    let gd? : Option (StateM Grid Tree) :=
+      if which == "good" then some Grid.toDictM
+      else if which == "bad" then some (Grid.toDictMBad fun _ => .null) else none
+    match parseTree? t, gd? with
+    | some t, some gd =>
+      if what == "grid" then
+        match decodeGrid t with
+        | .ok g =>
+          let (tree, g1) := gd.run g
+          let (w, g2) := (writeGridM gd AsdfLib.observed).run g1
+          (st, stAnswer (some g) (some g1) (some g2) (.ok tree) w)
+        | .error e => (st, "err " ++ showErr e)
+      else if what == "field" then
+        match Field.fromDict t with
+        | .ok f =>
+          let (tree, f1) := (Field.toDictMWith gd).run f
+          let (w, f2) := (writeFieldFitsM gd).run f1
+          (st, stAnswer (some f.grid) (some f1.grid) (some f2.grid) (.ok tree) w)
+        | .error e => (st, "err " ++ showErr e)
+      else if what == "basis" then
+        match ModeBasis.fromDict t with
+        | .ok b =>
+          let (tree, b1) := (ModeBasis.toDictMWith gd).run b
+          let (w, b2) := (writeBasisFitsM gd).run b1
+          (st, stAnswer b.grid b1.grid b2.grid tree w)
+        | .error e => (st, "err " ++ showErr e)
+      else (st, "bad-op")
+    | _, _ => (st, "bad-op")
+  | ["file", "grid", fmt, which, t] =>
+    match parseTree? t with
+    | some t =>
+      match decodeGrid t with
+      | .ok g =>
+        if fmt == "asdf" && which == "new" then
+          (st, fileAnswer (some g) ((writeGridAsdf AsdfLib.observed g).map (·.tree))
+            (fun ft => readGridAsdf ⟨ft⟩) (fun x => .ok x.toDict))
+        else if fmt == "asdf" && which == "old" then
+          (st, fileAnswer (some g) ((writeGridAsdf AsdfLib.observed g).map (·.tree))
+            (fun ft => readGridAsdfOld ⟨ft⟩) (fun x => .ok x.toDict))
+        else if fmt == "fits" && which == "new" then
+          (st, fileAnswer (some g) ((writeGridFits AsdfLib.observed g).map (·.tree))
+            (fun ft => readGridFits ⟨none, ft⟩) (fun x => .ok x.toDict))
+        else if fmt == "fits" && which == "old" then
+          (st, fileAnswer (some g) ((writeGridFits AsdfLib.observed g).map (·.tree))
+            (fun ft => readGridFitsOld ⟨none, ft⟩) (fun x => .ok x.toDict))
+        else (st, "bad-op")
+      | .error e => (st, "err " ++ showErr e)
+    | none => (st, "bad-op")
+  | ["file", "field", "asdf", "new", t] =>
+    match parseTree? t with
+    | some t =>
+      match Field.fromDict t with
+      | .ok f => (st, fileAnswer (some f.grid) ((writeFieldAsdf AsdfLib.observed f).map (·.tree))
+          (fun ft => readFieldAsdf ⟨ft⟩) (fun x => .ok x.toDict))
+      | .error e => (st, "err " ++ showErr e)
+    | none => (st, "bad-op")
+  | ["file", "basis", "asdf", "new", t] =>
+    match parseTree? t with
+    | some t =>
+      match ModeBasis.fromDict t with
+      | .ok b => (st, fileAnswer b.grid ((writeBasisAsdf AsdfLib.observed b).map (·.tree))
+          (fun ft => readBasisAsdf ⟨ft⟩) ModeBasis.toDict)
+      | .error e => (st, "err " ++ showErr e)
+    | none => (st, "bad-op")
   | ["dict", "coords", t] =>
     match parseTree? t with
     | some t => (st, answer ((Coords.fromDict t).map Coords.toDict))
@@ -248,13 +464,64 @@ def step (st : St) : List String → St × String
       | .ok b => (st, fitsAnswer (writeBasisFitsOld b) readBasisFitsOld ModeBasis.toDict)
       | .error e => (st, "err " ++ showErr e)
     | _, _ => (st, "bad-op")
+  | ["guess", name] => (st, "ok " ++ fmtShown (guessFormat name.toList))
+  | ["format", name, fmt] =>
+    match formatOf name.toList (parseFmtArg fmt) with
+    | .ok f => (st, "ok " ++ f.name)
+    | .error e => (st, "err " ++ showErr e)
+  | ["filert", what, lay, name, fmt, t] =>
+    match parseTree? t with
+    | some t =>
+      let nm := name.toList
+      let fm := parseFmtArg fmt
+      if what == "grid" then
+        match decodeGrid t with
+        | .ok g => (st, filertAnswer (writeGridFile AsdfLib.observed nm fm g) (readGridFile nm fm)
+            (fun x => .ok x.toDict))
+        | .error e => (st, "err " ++ showErr e)
+      else if what == "field" then
+        match Field.fromDict t, parseLayout? lay with
+        | .ok f, some l => (st, filertField l nm fm f)
+        | .error e, _ => (st, "err " ++ showErr e)
+        | _, none => (st, "bad-op")
+      else if what == "basis" then
+        match decodeBasis t with
+        | .ok b => (st, filertAnswer (writeBasisFile AsdfLib.observed nm fm b) (readBasisFile nm fm)
+            ModeBasis.toDict)
+        | .error e => (st, "err " ++ showErr e)
+      else (st, "bad-op")
+    | none => (st, "bad-op")
+  | ["chain", what, lay, hops, t] =>
+    match parseTree? t, parseHops hops with
+    | some t, some hs =>
+      if what == "grid" then
+        match decodeGrid t with
+        | .ok g => (st, answer ((gridChain AsdfLib.observed hs g).map Grid.toDict))
+        | .error e => (st, "err " ++ showErr e)
+      else if what == "field" then
+        match Field.fromDict t, parseLayout? lay with
+        | .ok f, some l => (st, answer ((chainField l hs f).map Field.toDict))
+        | .error e, _ => (st, "err " ++ showErr e)
+        | _, none => (st, "bad-op")
+      else if what == "basis" then
+        match decodeBasis t with
+        | .ok b => (st, answer ((basisChain AsdfLib.observed hs b).bind ModeBasis.toDict))
+        | .error e => (st, "err " ++ showErr e)
+      else (st, "bad-op")
+    | _, _ => (st, "bad-op")
   | ["ravel", shape, idx] =>
     match parseNatList? shape, parseNatList? idx with
-    | some s, some i => if s.length = i.length then (st, s!"ok {ravel s i}") else (st, "bad-op")
+    | some s, some i =>
+      match ravelChecked s i with
+      | .ok n => (st, s!"ok {n}")
+      | .error e => (st, "err " ++ showErr e)
     | _, _ => (st, "bad-op")
   | ["unravel", shape, k] =>
     match parseNatList? shape, parseNat? k with
-    | some s, some k => (st, "ok " ++ showNatList (unravel s k))
+    | some s, some k =>
+      match unravelChecked s k with
+      | .ok idx => (st, "ok " ++ showNatList idx)
+      | .error e => (st, "err " ++ showErr e)
     | _, _ => (st, "bad-op")
   | _ => (st, "bad-op")
 
